@@ -147,8 +147,16 @@ func (db *DB) recover() error {
 	}
 
 	// Mark all segments except the newest as full.
-	for i := 0; i < len(segments)-1; i++ {
-		segments[i].meta.Full = true
+	// The previous session may have never flushed the replayed records: sealing syncs a segment,
+	// the newest segment stays writable and is synced here.
+	for i, seg := range segments {
+		if i < len(segments)-1 {
+			if err := db.datalog.sealSegment(seg); err != nil {
+				return err
+			}
+		} else if err := seg.Sync(); err != nil {
+			return err
+		}
 	}
 
 	if err := removeRecoveryBackupFiles(db.opts.FileSystem); err != nil {
